@@ -61,7 +61,7 @@ def domainValueAtT (d : α × α) (t : α) : α := d.1 + (d.2 - d.1) * t
 def domMid (d : α × α) : α := (d.1 + d.2) * half
 
 /-- `rectangles_overlap` (closed, unlike `Box2D::intersects`) -/
-def rectanglesOverlap (r1 r2 : Box α) : Bool :=
+def rectanglesOverlap (r1 r2 : IxBox α) : Bool :=
   decide (r1.min.x ≤ r2.max.x) && decide (r2.min.x ≤ r1.max.x)
     && decide (r1.min.y ≤ r2.max.y) && decide (r2.min.y ≤ r1.max.y)
 
@@ -108,7 +108,7 @@ def baselineEq (c : Cubic α) : LineEq α := c.baseline.toLine.equation
 
 /-- signed distances of the two control points to the baseline, ordered by `min_max` -/
 def fatD (c : Cubic α) : α × α :=
-  minMax (LineEq.signedDistance (baselineEq c) c.c1) (LineEq.signedDistance (baselineEq c) c.c2)
+  ixMinMax (LineEq.signedDistance (baselineEq c) c.c1) (LineEq.signedDistance (baselineEq c) c.c2)
 
 /-- `factor` of `fat_line_min_max` -/
 def fatFactor (c : Cubic α) : α := if (fatD c).1 * (fatD c).2 > zero then three / four else four / nine
@@ -496,7 +496,7 @@ def step (a : Args α) (st : State α) : Step α :=
   else if a.c2.a == a.c2.b then
     .two { a with c2 := (halves2 a).1, d2 := (a.d2.1, domMid a.d2) }
          { a with c2 := (halves2 a).2, d2 := (domMid a.d2, a.d2.2) }
-  else if !rectanglesOverlap a.c1.fastBoundingBox a.c2.fastBoundingBox then .done st
+  else if !rectanglesOverlap a.c1.ixFastBoundingBox a.c2.ixFastBoundingBox then .done st
   else match restrictCurveToFatLine a.c1 a.c2 with
     | none => .done st
     | some clip => stepClipped a clip st
@@ -516,7 +516,7 @@ def addCurveIx : Nat → Args α → State α → State α
 
 /-- the early exit: bounding boxes do not (strictly) intersect, equal curves, reversed curves -/
 def trivialReject (c1 c2 : Cubic α) : Bool :=
-  !(c1.fastBoundingBox.intersects c2.fastBoundingBox) || cubicBeq c1 c2 || cubicIsReverse c1 c2
+  !(c1.ixFastBoundingBox.intersects c2.ixFastBoundingBox) || cubicBeq c1 c2 || cubicIsReverse c1 c2
 
 /-- `for t in curve_params { if t > EPSILON && t < 1 - EPSILON { push } }` -/
 def interiorParams (ts : List α) : List α :=
